@@ -321,6 +321,8 @@ def ex_spatial(ctx, lat_case, n, seed=0):
 
 def ex_load(ctx, ev, statements, lat_case, seed=0):
     """csep.load_catalog(apply_filters=True) == filter then filter_spatial on the same file."""
+    if not statements:
+        return        # apply_filters=True with no statement at all asks the caller for statements (an explicit refusal, not a filtering outcome)
     import csep
     ev = [tuple(e) for e in ev]
     reg, model, origins = c01.build_region(lat_case)
@@ -371,7 +373,7 @@ def run(ctx):
             if case["ctor"] == "midpoint":
                 case["ctor"] = "from_origins"
             ex_spatial(ctx, case, int(r.integers(0, 300)), seed=j)
-            if j % 21 == 0 and nev:
+            if j % 21 == 0 and nev and st:      # (load_catalog(apply_filters=True) with no statement at all asks for statements: not a filtering outcome)
                 # place the catalog's events over the lattice so the spatial part of apply_filters matters
                 ev2 = [(e[0], e[1], float(case["ay"]) + float(r.uniform(-1, case["ny"] + 1)) * float(case["dh"]),
                         float(case["ax"]) + float(r.uniform(-1, case["nx"] + 1)) * float(case["dh"]), e[4], e[5]) for e in ev]
